@@ -400,7 +400,55 @@ var c14Tamper = []c14Corruption{
 	}},
 }
 
+// c14SlowTransport: the joining node reads the peer's stream through a lossless, order preserving transport that
+// stalls once for a few seconds in the middle (a slow link). The peer holds more vertices than any buffer between the
+// two. The synced ledger must still be the peer's ledger.
+func c14SlowTransport(w *core.WorkerCtx) {
+	rng := core.Rand(w.Seed, "C14slow", w.Batch)
+	desc := fmt.Sprintf("c14 sync of a ledger of 170+ vertices over a transport that stalls once mid-stream seed=%d batch=%d", w.Seed, w.Batch)
+	w.Mark("%s", desc)
+	world := ledger.NewWorld(rng, w.R, []string{"C14"}, allSnapOracles, desc)
+	defer world.Close()
+	d, err := ledger.Setup(world, ledger.Profile{Nodes: 1, Users: 4, SupplyClass: 0, Delivery: "lockstep", PContract: 0.1, PBoundary: 0.2})
+	if err != nil {
+		w.R.Inconc("setup failed: " + err.Error())
+		return
+	}
+	d.P.Steps = 200
+	d.Run()
+	src := world.Nodes[0]
+	ssnap, _ := ledger.TakeSnap(src.Book)
+	if ssnap == nil || len(ssnap.Live) < 120 {
+		w.R.Note(fmt.Sprintf("slow transport: the peer holds only %d vertices", len(ssnap.Live)))
+		return
+	}
+	stallAfter := 5 + rng.Intn(15)
+	stall := time.Duration(2500+rng.Intn(1000)) * time.Millisecond
+	relayed := 0
+	nn, err := world.AddSyncedNodeVia("SLOW", src, func(in <-chan *accountant.Vertex, out chan<- *accountant.Vertex) {
+		for v := range in {
+			out <- v
+			relayed++
+			if relayed == stallAfter {
+				time.Sleep(stall)
+			}
+		}
+	})
+	world.EvalFor("C14", 1)
+	w.R.Count("c14_slow_transport_syncs", 1)
+	world.NontrivFor("C14", fmt.Sprintf("slow-transport/live%d", bucketN(len(ssnap.Live))))
+	if err != nil {
+		world.Violate("C14", "sync-failed/slow-transport", fmt.Sprintf("syncing %d vertices over a transport that stalled %v after %d vertices failed (%d vertices were relayed): %v", len(ssnap.Live), stall, stallAfter, relayed, err))
+	} else {
+		c14Compare(world, src, nn, fmt.Sprintf("after sync over a transport that stalled %v after %d of %d vertices", stall, stallAfter, len(ssnap.Live)))
+	}
+	w.R.Sample(6, map[string]any{"case": desc, "peer_vertices": len(ssnap.Live), "relayed": relayed, "stall": stall.String(), "synced": err == nil})
+}
+
 func c14Worker(w *core.WorkerCtx) {
+	if w.Batch == 2 || (w.Thorough() && w.Batch%40 == 2) {
+		c14SlowTransport(w)
+	}
 	if w.Batch == 0 {
 		c14AfterTruncation(w)
 	}
